@@ -142,8 +142,9 @@ def cfg_kwargs(cfg, handler=None):
     return kw
 
 
-def run_reader(data: bytes, cfg: dict, stream=None, max_items=None) -> Run:
-    """Read `data` to exhaustion through a real UBXReader.  Never raises."""
+def run_reader(data: bytes, cfg: dict, stream=None, max_items=None, use_iter=False) -> Run:
+    """Read `data` to exhaustion through a real UBXReader (read() loop, or the iterator protocol
+    when use_iter is set).  Never raises."""
     r = Run()
     st = stream if stream is not None else RecStream(data)
     handler = None
@@ -154,10 +155,17 @@ def run_reader(data: bytes, cfg: dict, stream=None, max_items=None) -> Run:
     try:
         rd = UBXReader(st, **cfg_kwargs(cfg, handler))
         limit = max_items if max_items is not None else len(data) + 4
+        it = iter(rd) if use_iter else None
         while True:
-            raw, parsed = rd.read()
-            if raw is None and parsed is None:
-                break
+            if use_iter:
+                try:
+                    raw, parsed = next(it)
+                except StopIteration:
+                    break
+            else:
+                raw, parsed = rd.read()
+                if raw is None and parsed is None:
+                    break
             r.items.append((raw, parsed))
             r.events.append(("item", len(r.items) - 1))
             if len(r.items) > limit:
